@@ -41,5 +41,5 @@ def run(ctx):
     _world.validate_programs(ctx, progs, "far out-of-range relative moves in continuous worlds with non-dyadic float extents and positions: "
                                          "saturation must land exactly on the edge; in wrapping worlds exactly at (old + delta) modulo extent", tamper=False)
     for kinds, label in ((("space",), "continuous worlds"), (("grid",), "generic grid worlds"), (("line", "grid2d"), "line and 2-D grid worlds")):
-        runs = _world.random_runs(ctx, n, kinds=kinds, mods="clean", length=60, weights=W, n_models=1)
+        runs = _world.random_runs(ctx, n, kinds=kinds, mods="clean", length=60, weights=W, n_models=2)
         _world.validate_runs(ctx, runs, f"random add/move/move_to/remove histories, non-cubic extents incl. 0, wrap on/off, {label}")
